@@ -644,7 +644,10 @@ def run_rekey(ctx: Ctx, hc):
                     sig = "C04:complete-frame-not-delivered" if want.startswith(got) else "C04:delivered-bytes-differ"
                     ctx.fail(sig, f"after a re-key the HTTP layer got {len(got)} of {len(want)} authentic bytes ('{after}')", rep, size=n1 + len(after))
                     break
-            exp2 = [t for t, (e, _) in zip([x.split(b" ")[1] for x in (a, b)], frames)] if after in ("k2", "k2-split", "k2-then-k1") else []
+            # the requests the reference receiver (same cipher class as the run) accepts under the NEW session, in order.
+            # (Derived from `frames`, never from the case name: under the transparent mock AEAD a superseded-key frame
+            # collides with a new-key tag once in 256 key pairs, and is then authentic for oracle and accessory alike.)
+            exp2 = [ln.split(b" ")[1] for ln in b"".join(pl for _, pl in frames).split(b"\r\n") if ln.startswith(b"GET ")]
             if not ctx.failures and dispatched[n_disp1:] != exp2 and not closed_before:
                 ctx.fail("C04:requests-not-dispatched", f"second session ('{after}'): dispatched {dispatched[n_disp1:]}, authentic requests {exp2}", rep)
             if mode == "mock":
